@@ -10,3 +10,6 @@ import (
 func PipeIDsInUse() []uint32        { return core.VerifPipeIDsInUse() }
 func ResetPipeIDs(next uint32)      { core.VerifResetPipeIDs(next) }
 func SocketPipes(s mangos.Socket) int { return core.VerifSocketPipes(s) }
+
+// SocketClosed reports whether Close has been called on the socket.
+func SocketClosed(s mangos.Socket) bool { return core.VerifSocketClosed(s) }
